@@ -41,7 +41,7 @@ func (d *Decoder) Decode(r io.Reader, t *dials.Type) (reflect.Value, error) {
 
 	// Get a pointer to our value, so we can pass that.
 	instance := val.Addr().Interface()
-	err = tomlparser.Unmarshal(tomlBytes, instance)
+	err = unmarshal(tomlBytes, instance)
 	if err != nil {
 		return reflect.Value{}, err
 	}
@@ -52,4 +52,16 @@ func (d *Decoder) Decode(r io.Reader, t *dials.Type) (reflect.Value, error) {
 	}
 
 	return unmangledVal, nil
+}
+
+// unmarshal wraps the TOML parser: it panics for some field types it cannot
+// fill (e.g. a table decoded into a map whose key type is not a string); a
+// config file that does not fit the type must be an error, not a crash.
+func unmarshal(tomlBytes []byte, instance interface{}) (err error) {
+	defer func() {
+		if p := recover(); p != nil {
+			err = fmt.Errorf("panic while decoding TOML: %v", p)
+		}
+	}()
+	return tomlparser.Unmarshal(tomlBytes, instance)
 }
